@@ -77,7 +77,9 @@ fn book_gen(m: &HashMap<String, String>) {
             ticks[rng.gen_range(0..ticks.len())]
         };
         let trading = if profile == "toggle" || profile == "mixed" { rng.gen::<f64>() < 0.7 } else { true };
-        let t0: u64 = if wide { 1 << 40 } else { rng.gen_range(0..100) };
+        // `wide`: a third of the histories start so close to the end of time that the clock reaches
+        // u64::MAX (a legal forward move) in mid-history and stays there
+        let t0: u64 = if wide { if rng.gen_range(0..3) == 0 { u64::MAX - rng.gen_range(0..80u64) } else { 1 << 40 } } else { rng.gen_range(0..100) };
         let np = if rng.gen::<f64>() < 0.3 { n_prices + 3 } else { n_prices };
         let edge = profile == "edge";
         let base = if edge {
@@ -405,7 +407,7 @@ fn trunc(m: &HashMap<String, String>) {
     let _ = std::fs::remove_dir_all(&scratch);
 }
 
-use bourse_verif_harness::sim::{fnv64, run_sim, SimSpec};
+use bourse_verif_harness::sim::{fnv64, run_sim, run_sim_manual, SimSpec};
 
 /// Random specification of a simulation. `mix`: 0 = RandomAgents only (exactly modelled in Lean),
 /// 1 = all built-in agent types.
@@ -477,13 +479,14 @@ fn sim_gen(m: &HashMap<String, String>) {
         let mut other = spec.clone();
         other.seed = other.seed.wrapping_add(1);
         let e = run_sim(&other, false, false);
+        let f = run_sim_manual(&spec);
         if !mix {
             println!("H sim{}-{}-{} {} sim {}", if mix { "mix" } else { "rand" }, seed, i, if mix { "mix" } else { "rand" }, spec.line());
             println!("I r=u sh=ok perm=- rngck=1 n=0");
             println!("O run");
             println!("I {}", a);
         }
-        println!("D {:016x} progress={:016x} hand={:016x} again={:016x} otherseed={:016x} panic={} {}", fnv64(&a), fnv64(&b), fnv64(&c), fnv64(&d), fnv64(&e),
+        println!("D {:016x} progress={:016x} hand={:016x} again={:016x} otherseed={:016x} manual={:016x} panic={} {}", fnv64(&a), fnv64(&b), fnv64(&c), fnv64(&d), fnv64(&e), fnv64(&f),
                  if a.starts_with("r=PANIC") { 1 } else { 0 }, spec.line());
     }
 }
